@@ -170,7 +170,23 @@ func ruleR05abc(c *Ctx) {
 		c.check(chained, rule, name+":chained-on-current-head", appendPos, "the new head is ChainLog(<current lastLog>)", "the new chain head is not computed as ChainLog(commander.lastLog)")
 		if storedTx != nil {
 			isNext := false
-			if call, ok := storedTx.(*ssa.Call); ok && calleeFullName(call) == "(*math/big.Int).Add" && len(call.Call.Args) == 3 {
+			// lastTXID + 1, computed here or by a helper of the commander every return of which is that expression
+			// (`commander.nextTXID()`, read under the same mutex: R05g checks the helper's reads)
+			plusOne := storedTx
+			if call, ok := storedTx.(*ssa.Call); ok {
+				if h := staticCallee(call); h != nil && fnPkgPath(origin(h)) == pkgCommand && len(h.Blocks) > 0 && len(call.Call.Args) == 1 {
+					var rets []ssa.Value
+					for _, b := range h.Blocks {
+						if r, ok := b.Instrs[len(b.Instrs)-1].(*ssa.Return); ok && len(r.Results) == 1 {
+							rets = append(rets, r.Results[0])
+						}
+					}
+					if len(rets) == 1 {
+						plusOne = rets[0]
+					}
+				}
+			}
+			if call, ok := plusOne.(*ssa.Call); ok && calleeFullName(call) == "(*math/big.Int).Add" && len(call.Call.Args) == 3 {
 				_, a := fieldRead(call.Call.Args[1], m.fLastTXID)
 				_, b := fieldRead(call.Call.Args[2], m.fLastTXID)
 				one := func(v ssa.Value) bool {
